@@ -36,10 +36,15 @@ struct RtCase {
     sel: u8,
     /// content of the store that restore_from_bytes overwrites
     pre: Content,
+    /// history of the overwritten store's embedding slab: slab-dimension embeddings `emb:p<n>` put
+    /// after `pre`, those flagged deleted again (freed slots) before restore_from_bytes runs
+    #[serde(default)]
+    pre_emb: Vec<(u8, bool)>,
 }
 
 fn rt_strategy(t: Tier) -> impl Strategy<Value = RtCase> {
-    (content_strategy(t), 0u8..32, model::tiny_content_strategy()).prop_map(|(content, sel, pre)| RtCase { content, sel, pre })
+    (content_strategy(t), 0u8..32, model::tiny_content_strategy(), prop::collection::vec((0u8..10, prop::bool::weighted(0.5)), 0..10))
+        .prop_map(|(content, sel, pre, pre_emb)| RtCase { content, sel, pre, pre_emb })
 }
 
 struct Orig<'a> {
@@ -166,6 +171,22 @@ fn roundtrip(c: &RtCase, ctx: &mut CaseCtx) -> Result<(), Fail> {
                 ctx.label("restore_from_bytes into a used store");
                 let used = TensorStore::new();
                 let _ = build_into(&c.pre, &used);
+                let slab_dim = used.router().embeddings.dimension();
+                for (n, _) in &c.pre_emb {
+                    let mut t = tensor_store::TensorData::new();
+                    let v: Vec<f32> = (0..slab_dim).map(|i| 1.0 + f32::from(*n) + (i % 7) as f32 * 0.25).collect();
+                    t.set("_embedding", tensor_store::TensorValue::Vector(v));
+                    let _ = used.router().put(&format!("emb:p{n}"), t);
+                }
+                let mut freed = 0;
+                for (n, del) in &c.pre_emb {
+                    if *del && used.router().delete(&format!("emb:p{n}")).is_ok() {
+                        freed += 1;
+                    }
+                }
+                if freed > 0 {
+                    ctx.label("restore_from_bytes into a store whose embedding slab has freed slots");
+                }
                 match used.restore_from_bytes(&bytes) {
                     Err(e) => ctx.fail("bytes-restore-used:load-failed", format!("restore_from_bytes into a used store failed: {e}"))?,
                     Ok(()) => compare_store("bytes-restore-used", Mode::Exact, &used, &o, ctx)?,
